@@ -724,8 +724,18 @@ def _c19_variants(n):
         t = n[1]
         if t != "n":
             out.append(("leaf", "n"))
-        if t[0] == "i" and t not in ("i0", "i1", "i-1"):
-            out.append(("leaf", "i-1" if t[1] == "-" else "i1"))
+        if t[0] == "i":
+            num, colon, ty = t[1:].partition(":")
+            if num not in ("0", "1", "-1"):
+                out.append(("leaf", "i" + ("-1" if num[0] == "-" else "1") + colon + ty))
+            if ty:
+                out.append(("leaf", "i" + num))      # is the suffix needed? (BADCASE when out of i32)
+            try:
+                z = int(num)
+                if abs(z) > 3:
+                    out.append(("leaf", "i%d%s%s" % (int(z / 2), colon, ty)))
+            except ValueError:
+                pass
         if t[0] == "d" and t[2:] != "1.5":
             out.append(("leaf", t[:2] + "1.5"))
         return out
@@ -803,8 +813,12 @@ PROPS["C19"] = {
             "build/c19-target; programs under build/c19-crate) and run. Systematic part: each of 12 element kinds (null, "
             "true, false, +int, -int, +float, -float, string, empty/non-empty array, empty/non-empty object) alone, first "
             "and last in an array and in an object under each of the four key forms (literal, parenthesised literal, "
-            "variable, parenthesised variable), duplicate keys, with and without trailing comma; random part: nested "
-            "documents of depth <= 4 / 5 and width <= 4 / 6 with repeated keys, i32 boundary integers, float literals drawn "
+            "variable, parenthesised variable), duplicate keys, with and without trailing comma; for each of the eight suffix "
+            "types the array [MIN, MAX, 0, 1, MAX-1, (MIN+1, -1)] of suffixed literals, and u64::MAX, 2^63, 2^63+1, 2^63-1 as u64 "
+            "and i64::MIN / i64::MAX as scalar, array item and object value (part of every run); random part: nested "
+            "documents of depth <= 4 / 5 and width <= 4 / 6 with repeated keys, integer literals (half unsuffixed i32 incl. its "
+            "bounds, half with a suffix i8..i64 / u8..u64: MIN, MAX, MAX-1, MIN+1, 0, 1, the powers 2^7, 2^8, 2^15, 2^16, 2^31, "
+            "2^32, 2^63 and their predecessors, negated for signed types, and random values), float literals drawn "
             "from eight classes of doubles and kept when the crate's spelling of the double is itself a float literal, "
             "strings with quotes, backslashes, controls, U+2028, non-BMP characters. Observable per document: the value the "
             "macro built, the value Value::parse_str returns on the corresponding text, whether they are ==, and the text; "
@@ -818,14 +832,19 @@ PROPS["C19"] = {
                 "literal (a `-` not followed by a literal is a hard error), `expr` = literal | -literal | variable | interpolated "
                 "expression | parenthesised expr, `tt` = one token tree; interpolated expr/literal fragments are opaque to token "
                 "patterns. Validated only by compiling and running the generated programs",
-                "type inference gives an unsuffixed integer literal the type i32 and a float literal f64 in Value::try_from(..); "
+                "type inference gives an unsuffixed integer literal the type i32 and a float literal f64 in Value::try_from(..); a "
+                "suffixed literal has the type of its suffix; overflowing_literals (deny-by-default) rejects a literal outside its "
+                "type's range looking at the negation as a whole (-128i8 compiles, 128i8 does not); unsigned literals cannot be "
+                "negated; "
                 "std's From/TryFrom blanket impls; Object::from_vec keeps the vector's order",
                 "the spelling of a double (json-number -> lexical-core write_float, trim_floats, exponent 'e') is a dependency: a "
                 "universally quantified function fmt_f64 in the theorems, the executable reference Model/MacroFloat.lexical_f64 "
                 "(shortest round-trip digits, positional for decimal exponents -5..9, scientific otherwise) in the run",
                 "the generated programs set #![recursion_limit = \"4096\"] (the muncher recurses once per token; fuel in the "
                 "model is existential)"],
-    "assumptions": ["domain: integers within i32; float literals common to Rust and JSON (no leading zero, a fraction or an "
+    "assumptions": ["domain: integer literals `-`? digits suffix? within the range of their type -- i32 when unsuffixed, "
+                    "otherwise the suffix, one of i8, i16, i32, i64, u8, u16, u32, u64 (the types with From<T> for Value; usize, "
+                    "isize, i128, u128 literals do not compile); the JSON text has no suffix; float literals common to Rust and JSON (no leading zero, a fraction or an "
                     "exponent) that the crate re-spells as themselves (fmt_f64 s = Some s) -- e.g. 1.5, 0.1, 1e21, 1e-7 are in, "
                     "100.0 (spelt 100) and 1.50 are out, and so is 2.675e21 (known finding: the dependency spells that double "
                     "2.6750000000000003e21); the integer literal -0 (the i32 0, spelt 0) is out; strings/keys of "
@@ -834,7 +853,8 @@ PROPS["C19"] = {
 }
 
 _m("C19", "Proved for EVERY document of the domain (arrays and objects nested to any depth, each with or without trailing comma, "
-          "string / i32 integer / re-spelt float / boolean / null literals, negative numbers, literal, parenthesised and variable "
+          "string / integer (unsuffixed i32 or suffixed i8..i64, u8..u64, within the type's range) / re-spelt float / boolean / null "
+          "literals, negative numbers, literal, parenthesised and variable "
           "keys, duplicate keys): the rule model of json! -- the 41 rules of src/macros.rs in source order as a first-match "
           "rewriting system over token trees, with the leaf conversions -- expands the document's tokens to exactly the value the "
           "document denotes (items and entries in written order, duplicates kept), the trailing comma never matters, the "
